@@ -559,6 +559,37 @@ func discoverRoles(w *World) *roleCtx {
 	if task != nil {
 		rc.field(task, "sm", func(f *types.Var) bool { return tstr(f.Type()) == "sync.Mutex" }, "the Task field of type sync.Mutex")
 	}
+	// the completion message: the struct (declared in Run or at package level) made of a dag.ID and an error
+	if p := rc.pkg("dag"); p != nil {
+		for _, obj := range p.TypesInfo.Defs {
+			tn, ok := obj.(*types.TypeName)
+			if !ok {
+				continue
+			}
+			n, ok := tn.Type().(*types.Named)
+			if !ok {
+				continue
+			}
+			st := structOf(n)
+			if st == nil || st.NumFields() != 2 {
+				continue
+			}
+			var idF, errF *types.Var
+			for i := 0; i < 2; i++ {
+				switch {
+				case tstr(st.Field(i).Type()) == "dag.ID":
+					idF = st.Field(i)
+				case isErrorType(st.Field(i).Type()):
+					errF = st.Field(i)
+				}
+			}
+			if idF == nil || errF == nil {
+				continue
+			}
+			rc.field(n, "ID", func(f *types.Var) bool { return f == idF }, "the dag.ID field of the completion message")
+			rc.field(n, "Error", func(f *types.Var) bool { return f == errF }, "the error field of the completion message")
+		}
+	}
 	return rc
 }
 
